@@ -31,6 +31,8 @@ func main() {
 		runC19(cfg, rep)
 	case "C18":
 		runC18(cfg, rep)
+	case "C14":
+		runC14HTTP(cfg, rep)
 	default:
 		fmt.Fprintln(os.Stderr, "apimon: unknown property", cfg.Prop)
 		os.Exit(3)
@@ -546,3 +548,88 @@ func min2(a, b int) int {
 }
 
 var _ = sort.Strings
+
+// ------------------------------------------------------------------------------------------------ C14 at the HTTP boundary
+
+// runC14HTTP: every write route of both API versions, submitted with the dry-run flag in every spelling the handlers
+// accept at the pinned commit (v2 `dryRun`, v1 `preview`: yes / true in any case, 1), must reach the engine with
+// Parameters.DryRun = true; without the flag (or with a negative spelling) it must not.
+func runC14HTTP(cfg *vc.Config, rep *vc.Report) {
+	b := &MonBackend{}
+	h := newRouter(b, false)
+	type wr struct{ method, path, body, backendMethod string }
+	routes := map[string][]wr{
+		"v2": {
+			{"POST", "/api/ledger/v2/l1/transactions", bodies["tx"][0], "CreateTransaction"},
+			{"POST", "/api/ledger/v2/l1/transactions", bodies["tx"][1], "CreateTransaction"},
+			{"POST", "/api/ledger/v2/l1/transactions/3/revert", "", "RevertTransaction"},
+			{"POST", "/api/ledger/v2/l1/accounts/alice/metadata", bodies["meta"][0], "SaveMeta"},
+			{"POST", "/api/ledger/v2/l1/transactions/3/metadata", bodies["meta"][0], "SaveMeta"},
+			{"DELETE", "/api/ledger/v2/l1/accounts/alice/metadata/k", "", "DeleteMetadata"},
+			{"DELETE", "/api/ledger/v2/l1/transactions/3/metadata/k", "", "DeleteMetadata"},
+		},
+		"v1": {
+			{"POST", "/api/ledger/l1/transactions", bodies["tx"][0], "CreateTransaction"},
+			{"POST", "/api/ledger/l1/transactions", bodies["tx"][1], "CreateTransaction"},
+			{"POST", "/api/ledger/l1/transactions/3/revert", "", "RevertTransaction"},
+			{"POST", "/api/ledger/l1/accounts/alice/metadata", bodies["meta"][0], "SaveMeta"},
+			{"POST", "/api/ledger/l1/transactions/3/metadata", bodies["meta"][0], "SaveMeta"},
+			{"DELETE", "/api/ledger/l1/accounts/alice/metadata/k", "", "DeleteMetadata"},
+		},
+	}
+	flag := map[string]string{"v2": "dryRun", "v1": "preview"}
+	positive := []string{"true", "TRUE", "True", "tRuE", "1", "yes", "YES", "Yes"}
+	negative := []string{"", "false", "0", "no", "2", "truee"}
+	for ver, rs := range routes {
+		for _, rt := range rs {
+			for _, sp := range append(append([]string{}, positive...), negative...) {
+				isPos := false
+				for _, p := range positive {
+					if p == sp {
+						isPos = true
+					}
+				}
+				target := rt.path
+				if sp != "" {
+					target += "?" + flag[ver] + "=" + sp
+				}
+				extra := ""
+				if rt.backendMethod == "RevertTransaction" && sp != "" {
+					extra = "&force=true"
+				}
+				rep.Eval()
+				code, _, pv := serve(h, rt.method, target+extra, rt.body, map[string]string{"Idempotency-Key": "ik1"})
+				calls := b.Take()
+				desc := map[string]any{"method": rt.method, "target": target + extra, "http_status": code}
+				var w *Call
+				for k := range calls {
+					if calls[k].IsWrite() {
+						w = &calls[k]
+					}
+				}
+				if pv != nil || w == nil {
+					rep.Inc("write_route_not_reached")
+					continue
+				}
+				rep.DistinctCase(vc.Hash64(rt.method, target))
+				if isPos {
+					rep.Inc("dry_run_requests")
+					if !w.Params.DryRun {
+						rep.Violate("preview-executed-for-real:"+ver+":"+rt.backendMethod, fmt.Sprintf("%s %s reached backend.%s with DryRun=false: the write is executed (log entry, transaction id, event)", rt.method, target, w.Method), -1, desc)
+					}
+				} else {
+					rep.Inc("real_requests")
+					if w.Params.DryRun {
+						rep.Violate("real-write-treated-as-preview:"+ver+":"+rt.backendMethod, fmt.Sprintf("%s %s reached backend.%s with DryRun=true", rt.method, target, w.Method), -1, desc)
+					}
+				}
+				if w.Params.IdempotencyKey != "ik1" {
+					rep.Violate("idempotency-key-lost:"+ver+":"+rt.backendMethod, w.Params.IdempotencyKey, -1, desc)
+				}
+				if rep.WantSample() && isPos {
+					rep.Sample(desc)
+				}
+			}
+		}
+	}
+}
